@@ -86,7 +86,37 @@ def st_project():
     from ..gen import pysource
 
     @st.composite
+    def chain(draw):
+        """A history in several steps: a name defined more than once, the winning definition re-exported (moved away), then the
+        container it was in (module or class) re-exported too - possibly empty by then, with the older definitions still below it."""
+        k = draw(st.integers(2, 3))
+        shape = draw(st.sampled_from(['func', 'class', 'nested']))
+        extra = draw(st.sampled_from(['', 'def other(): pass\n', 'Y = 1\n']))
+        if shape == 'func':
+            impl = ''.join('def f(%s):\n    """f %d"""\n' % ('a' * i, i) for i in range(k)) + extra
+            export, name = 'from ._impl import f', 'f'
+        elif shape == 'class':
+            impl = ''.join('class X:\n    """X %d"""\n    def m%d(self): pass\n' % (i, i) for i in range(k)) + extra
+            export, name = 'from ._impl import X', 'X'
+        else:
+            impl = 'class K:\n' + ''.join('    class Inner:\n        """Inner %d"""\n        def m%d(self): pass\n' % (i, i) for i in range(k)) + 'Inner = K.Inner\n' + extra
+            export, name = 'from ._impl import Inner', 'Inner'
+        second = draw(st.sampled_from(['module', 'module', 'container-class', 'none']))
+        pkg_init = export + '\n__all__ = [%r]\n' % name
+        top_init = ''
+        if second == 'module':
+            top_init = 'from .pkg import _impl\n__all__ = [\'_impl\']\n'
+        elif second == 'container-class' and shape == 'nested':
+            pkg_init = 'from ._impl import Inner, K\n__all__ = [\'Inner\', \'K\']\n'
+        mods = [('top', None, True, top_init), ('pkg', 'top', True, pkg_init), ('_impl', 'top.pkg', False, impl)]
+        if draw(st.booleans()):
+            mods.append(('user', 'top', False, 'from top.pkg import %s\nfrom top.pkg._impl import %s as old\n' % (name, name)))
+        return {'kind': 'project', 'mods': [list(m) for m in mods], 'order': None}
+
+    @st.composite
     def p(draw):
+        if draw(st.integers(0, 5)) == 0:
+            return draw(chain())
         n = draw(st.integers(2, 4))
         mods = []
         mods.append(('p', None, True, draw(st.one_of(st.just(''), st_module()))))
